@@ -183,6 +183,11 @@ class C08RoundTripND(Harness):
                     continue
                 yield f"j2d-{bs[0]}-{bs[1]}-{dt}", dict(cls="Histogram2D", binnings=list(bs), dtype=dt)
         yield "j3d-static-fixed-numpy", dict(cls="HistogramND", binnings=["static", "fixed", "numpy"], dtype="int64")
+        # ND histograms that do not track missed values but carry a missed weight (constructor argument / flag switched off later)
+        for how in ("ctor", "toggled"):
+            yield f"j2d-keep0-{how}", dict(cls="Histogram2D", binnings=["static", "fixed"], dtype="int64", keep0=how)
+        yield "j3d-keep0-ctor", dict(cls="HistogramND", binnings=["static", "fixed", "numpy"], dtype="float64", keep0="ctor")
+        yield "jtr-PolarHistogram-keep0", dict(cls="PolarHistogram", binnings=["static"] * 2, dtype="float64", keep0="toggled")
         for cls, nb in (("PolarHistogram", 2), ("RadialHistogram", 1), ("AzimuthalHistogram", 1), ("SphericalHistogram", 3), ("SphericalSurfaceHistogram", 2),
                         ("CylindricalHistogram", 3), ("CylindricalSurfaceHistogram", 2)):
             yield f"jtr-{cls}", dict(cls=cls, binnings=["static"] * nb, dtype="float64")
@@ -240,7 +245,10 @@ class C08RoundTripND(Harness):
         if D == 1:
             h = cls(bins[0], f, q, underflow=x["m"], name="the name", title="tt", custom="c")
         else:
-            h = cls(bins, f, errors2=q, missed=x["m"], name="the name", title="tt", custom="c")
+            kw = {"keep_missed": False} if p.get("keep0") == "ctor" else {}
+            h = cls(bins, f, errors2=q, missed=x["m"], name="the name", title="tt", custom="c", **kw)
+            if p.get("keep0") == "toggled":
+                h.keep_missed = False
         text = E.attempt(h.to_json)
         if isinstance(text, Raised):
             return {"raised": text}
